@@ -168,6 +168,18 @@ func runCheck(args []string) int {
 			// replay 1: concrete re-execution in the engine
 			path := writeReplay(prop, v)
 			confirmed, how := confirm(eng, h.Name(), v, path)
+			for k := 0; !confirmed && k < len(v.Alts); k++ {
+				// another counterexample for the same assertion may replay where this one does not
+				alt := v.Alts[k]
+				apath := strings.TrimSuffix(path, ".json") + fmt.Sprintf("-alt%d.json", k+1)
+				ab, _ := json.MarshalIndent(alt, "", " ")
+				os.WriteFile(apath, ab, 0644)
+				if ok2, how2 := confirm(eng, h.Name(), alt, apath); ok2 {
+					confirmed, how, path, v = true, how2+fmt.Sprintf("; counterexample %d of %d for this assertion", k+2, len(v.Alts)+1), apath, alt
+				} else {
+					os.Remove(apath)
+				}
+			}
 			if !confirmed {
 				nunconf++
 				lines = append(lines, fmt.Sprintf("UNCONFIRMED property=%s harness=%s %s %q (%s) replay=%s", prop, v.Harness, v.Kind, v.Label, how, path))
@@ -597,7 +609,7 @@ func TestVerifValidate(t *testing.T) {
 			want = "covers=[]"
 		}
 		good := strings.Contains(l, "failed=[]") && strings.Contains(l, "panic=<nil>")
-		if good && !v.Sched && !strings.HasSuffix(l, want) {
+		if good && !v.Sched && !v.HashUF && !strings.HasSuffix(l, want) {
 			good = false
 		}
 		if good {
